@@ -566,6 +566,24 @@ def call_seq_method(ex, recv, name, A, kw, st, node):
         return join(ex, recv, A[0], st, node)
     if name == 'rstrip' and not A:
         return model_rstrip(ex, sq, st, node)
+    if name == 'strip' and len(A) == 1:
+        p = seq_arg(ex, A[0], st)
+        if isinstance(p.n, int) and p.n == 1:
+            c = p.get(0)
+            lo, hi = V.fresh_int('strip.lo'), V.fresh_int('strip.hi')
+            V.note_range(lo, 0, sq.n + 1)
+            V.note_range(hi, 0, sq.n + 1)
+            st.assume(AND(lo >= 0, lo <= hi, hi <= sq.n,
+                          forall(0, lo, lambda k: sq.get(k) == c), forall(hi, sq.n, lambda k: sq.get(k) == c),
+                          OR(lo == hi, AND(NOT(sq.get(lo) == c), NOT(sq.get(hi - 1) == c)))))
+            return sq.slice(lo, hi)
+        raise SymErr('strip() signature')
+    if name == 'replace' and len(A) == 2:
+        p, q = seq_arg(ex, A[0], st), seq_arg(ex, A[1], st)
+        if isinstance(p.n, int) and p.n == 1 and isinstance(q.n, int) and q.n == 1:
+            a, b, g = p.get(0), q.get(0), sq.get
+            return SSeq(sq.n, lambda k: ite(g(k) == a, b, g(k)), sq.kind)
+        raise SymErr('replace() signature')
     if name in ('startswith', 'endswith') and len(A) == 1:
         p = seq_arg(ex, A[0], st)
         if not isinstance(p.n, int):
